@@ -2908,7 +2908,9 @@ impl GlobalInferenceCtx<'_> {
 
                             let ty = self.tys[self.loc][body];
 
-                            if ty.is_pointer() || ty.is_function() {
+                            // the bytes of the result get baked into the final binary, and an
+                            // address inside those bytes would point into the compiler's memory
+                            if ty.contains_pointer() {
                                 self.diagnostics.push(TyDiagnostic {
                                     kind: TyDiagnosticKind::ComptimePointer,
                                     file: self.loc.file(),
